@@ -804,9 +804,26 @@ def _step_def(kind: str) -> T:
 
 def _boundaries_ok(b: T, kind: str, thr: T) -> Tuple[bool, str]:
     """b = concatenate([[0], where(step > thr)[0] + 1, [num_poses]])"""
+    from ..lib import strip_asarray
+    # (indices stay the same indices through .astype(int) / np.asarray)
+    b = b.map(lambda x: tm.method_recv(x) if (
+        is_call_to(x, ".astype") and len(x.args[1]) == 1 and
+        x.args[1][0] is tm.glob("builtins.int")) else None)
     alts = tm.strip_ite(b)
     main = [a for a in alts if is_call_to(a, "numpy.concatenate")]
     if not main:
+        core = b
+        if core.op == "binop" and core.args[0] == "Add" and \
+                tm.is_const(core.args[2]):
+            core = core.args[1]
+        if core.op == "sub" and tm.is_const(core.args[1], 0) and \
+                is_call_to(core.args[0], "numpy.where", "numpy.nonzero",
+                           "numpy.flatnonzero"):
+            return False, (f"the part boundaries are the positions of the "
+                           f"long steps only ({fmt(b)[:70]}): 0 and the "
+                           f"number of poses are missing, so the stretch "
+                           f"before the first and after the last cut is "
+                           f"dropped (no cut at all gives no part)")
         return None, f"boundaries are {fmt(b)}"
     c = main[0]
     parts = c.args[1][0] if c.args[1] else None
@@ -1032,6 +1049,24 @@ def _merge(ctx, prog):
                f"merge: constructor argument {pname} is {why} — every pose "
                f"must keep its own {attr}",
                key=f"C11.5:role:{pname}", value=fmt(v))
+    # a further per-pose array handed to the constructor (the SE(3) matrices
+    # kept from the inputs ...) must be permuted like the others
+    pv = b.get("poses_se3")
+    if pv is not None and pv is not tm.NONE:
+        alts = [a for a in tm.strip_ite(pv) if a is not tm.NONE]
+        unperm = [a for a in alts if not (
+            (a.op == "sub" and norm_loops(a.args[1]) in orders) or
+            (a.op == "comp" and any(x.op == "elem" and
+                                    norm_loops(x.args[0]) in orders
+                                    for x in a.walk())))]
+        ctx.ob("C11.5", f, not unperm,
+               "merge: the pose matrices handed to the constructor are "
+               "permuted like positions, orientations and timestamps"
+               if not unperm else
+               f"merge: constructor argument poses_se3 is "
+               f"{fmt(unperm[0])[:80]} — in concatenation order, while the "
+               f"other arrays are time-sorted: pose k gets the matrix of "
+               f"another timestamp", key="C11.5:role:poses_se3")
     # nothing may thin out / re-select the merged trajectory in the
     # documented call form (options added later are at their defaults)
     later = [e for e in r.of_kind("call")
